@@ -87,7 +87,7 @@ CHECK = {
 LIVE = {
     "quick": ("live", consts(nt=2, ops=((R, CL), (SN,)), maxops=2, total=2, sizes=(3,), mbs=(1,),
                              env=("data", "peof", "drain", "reset", "cancel"))),
-    "thorough": ("live", consts(nt=3, ops=((R,), (SN,), (CL,)), maxops=4, total=3,
+    "thorough": ("live", consts(nt=3, ops=((R,), (SN,), (CL,)), maxops=3, total=3,
                                 env=("data", "peof", "drain", "reset", "cancel"))),
 }
 # the model reproduces finding F10: with a transport that is not paused at creation the strict bound fails
